@@ -12,7 +12,7 @@ NODE_KINDS_RAW = ("tag_edit", "len_edit", "content_edit", "zero_len_primitive", 
 INTERIOR = ("inner_len_edit", "node_delete_reframed", "children_truncate_reframed", "zero_len_primitive_reframed",
             "content_truncate_reframed", "control_value_damage", "node_duplicate_reframed", "tag_edit_reframed",
             "content_edit", "inner_len_shrink", "envelope_emptied")
-PDU_KINDS = ("truncate_stream", "insert_garbage", "random_blob", "pdu_duplicate", "pdu_reorder", "deep_nest", "byz_message")
+PDU_KINDS = ("truncate_stream", "insert_garbage", "random_blob", "pdu_duplicate", "pdu_reorder", "deep_nest", "byz_message", "giant_pending")
 
 PAGED_OID = b"1.2.840.113556.1.4.319"
 
